@@ -44,6 +44,9 @@ TEXT = {
  "C06": ("deterministic simulation with a byzantine server node behind HTTPClient.Do; oracle: termination, no panic, coded non-zero errors, HTTP status mapping, case-insensitive lookups",
          "Seeded search over hostile responses; honest note: the deciding power is the byzantine peer's seeded generation, the simulator adds termination/hang detection on the fake clock, segmentation and timing of the hostile bytes, and attribution of panics on the library's own goroutine.",
          "5 C06"),
+ "C07": ("deterministic simulation with a byzantine client node driving Handler.ServeHTTP; oracle: termination, no panic, response strictly decodable by the reference codec, user code at most once with decodable messages, documented codes",
+         "Seeded search over hostile requests; honest note as for C06: the byzantine peer's seeded generation decides, the simulator adds termination/hang detection, segmentation of the hostile body and panic attribution. Request envelopes carrying the response-only flags 0x02/0x80 are a don't-care zone.",
+         "5 C07"),
 }
 
 hooks_commits = subprocess.run(["git", "-C", "/repo", "log", "--format=%H", "--grep=^verif:"], capture_output=True, text=True).stdout.split()
